@@ -71,7 +71,7 @@ class Interp:
             if lw is None:
                 raise Violation("c16.weights", f"{what}: weights are missing although all three log-densities are present", w)
             a = np.asarray(to_np(lw), dtype=np.float64)
-            tol = dict(rtol=1e-5, atol=1e-5) if m["bits"] == 32 else dict(rtol=1e-12, atol=1e-12)
+            tol = dict(rtol=1e-5, atol=1e-5) if min(m["bits"], m.get("value_bits", m["bits"])) == 32 else dict(rtol=1e-12, atol=1e-12)
             if a.shape != m["log_w"].shape or not np.allclose(a, m["log_w"], equal_nan=True, **tol):
                 raise Violation("c16.weights", f"{what}: log_w is not the same selection as the rows (model disagrees)", {**w, "field": "log_w"})
             ww = np.asarray(to_np(obj.weights), dtype=np.float64)
